@@ -5,6 +5,8 @@
                               says (id, fields in order with kind, vector marker, flag bit, position of the
                               flags word), and nothing else is declared
      emit_total             : on schemas passing wf_gen the generator does not panic
+     argument_map           : the body of a generated method hands argument j to the field of parameter j
+     declared_nodup         : under names_ok no identifier is declared twice
    sort.Slice / sort.Strings are Section variables with the sorted-permutation hypotheses; the insertion
    sort used for execution is shown to satisfy them. *)
 From Coq Require Import String.
@@ -809,3 +811,234 @@ Proof.
 Qed.
 
 End Total.
+
+(* ---- the body of a generated method hands every argument to the field of its own parameter ---- *)
+
+Section ArgumentMap.
+Variable goify : str -> bool -> str.
+
+Definition not_flags (p : param) : bool := negb (is_bitflags p).
+
+(* at most one parameter is the flags word *)
+Definition one_flags_word (ps : list param) : Prop := (length (filter is_bitflags ps) <= 1)%nat.
+
+Lemma arg_params_filter ps : one_flags_word ps -> arg_params ps = filter not_flags ps.
+Proof.
+  unfold one_flags_word, not_flags. induction ps as [|p t IH]; cbn [arg_params filter]; [reflexivity|].
+  destruct (is_bitflags p) eqn:Ep; cbn [negb length]; intros H.
+  - assert (Ht : filter is_bitflags t = []) by (destruct (filter is_bitflags t); [reflexivity|cbn in H; lia]).
+    rewrite andb_true_r.
+    assert (Hc : match t with [] => true | q :: _ => negb (same_go_type p q) end = true).
+    { destruct t as [|q t']; [reflexivity|]. cbn [filter] in Ht. destruct (is_bitflags q) eqn:Eq; [discriminate|].
+      unfold same_go_type, is_bitflags in *. apply beq_eq in Ep.
+      destruct (beq_spec (p_type p) (p_type q)) as [E|_]; [|reflexivity].
+      rewrite <- E, Ep, beq_refl in Eq. discriminate. }
+    rewrite Hc. apply IH. rewrite Ht. cbn. lia.
+  - rewrite andb_false_r. f_equal. apply IH. exact H.
+Qed.
+
+Lemma arg_index_nth l : forall i j p,
+  NoDup (map (fun q => goify (p_name q) false) l) -> nth_error l j = Some p ->
+  arg_index goify (goify (p_name p) false) l i = Some (i + j)%nat.
+Proof.
+  induction l as [|q t IH]; intros i j p Hnd Hj; [destruct j; discriminate|].
+  cbn [map] in Hnd. inversion Hnd as [|? ? Hnin Hnd']; subst. cbn [arg_index].
+  destruct j as [|j]; cbn [nth_error] in Hj.
+  - injection Hj as ->. rewrite beq_refl. f_equal. lia.
+  - destruct (beq_spec (goify (p_name q) false) (goify (p_name p) false)) as [E|_].
+    + exfalso. apply Hnin. rewrite E. apply nth_error_In in Hj.
+      apply (in_map (fun q => goify (p_name q) false)) in Hj. exact Hj.
+    + rewrite (IH (S i) j p Hnd' Hj). f_equal. lia.
+Qed.
+
+(* the j-th positional argument is the j-th parameter other than the flags word, and the Params literal
+   puts it into the field generated for that very parameter (field j of the struct, see gen_fields) *)
+Theorem argument_map ps j p :
+  one_flags_word ps ->
+  NoDup (map (fun q => goify (p_name q) false) (filter not_flags ps)) ->
+  nth_error (filter not_flags ps) j = Some p ->
+  nth_error (arg_params ps) j = Some p
+  /\ nth_error (gen_call goify ps) j = Some (goify (p_name p) true, Some j).
+Proof.
+  intros H1 Hnd Hj. rewrite (arg_params_filter ps H1). split; [exact Hj|].
+  unfold gen_call. fold not_flags. rewrite (arg_params_filter ps H1).
+  erewrite map_nth_error by exact Hj. f_equal. f_equal.
+  exact (arg_index_nth (filter not_flags ps) 0 j p Hnd Hj).
+Qed.
+
+End ArgumentMap.
+
+(* ---- no name is declared twice ---- *)
+
+Lemma flat_map_perm_pointwise {A B} (f g : A -> list B) l :
+  (forall a, In a l -> Permutation (f a) (g a)) -> Permutation (flat_map f l) (flat_map g l).
+Proof.
+  induction l as [|a t IH]; intros H; cbn [flat_map]; [reflexivity|].
+  apply Permutation_app; [apply H; left; reflexivity|apply IH; intros x Hx; apply H; right; exact Hx].
+Qed.
+
+Lemma flat_map_ext_in' {A B} (f g : A -> list B) l : (forall a, In a l -> f a = g a) -> flat_map f l = flat_map g l.
+Proof.
+  induction l as [|a t IH]; intros H; cbn [flat_map]; [reflexivity|].
+  rewrite (H a (or_introl eq_refl)), IH; [reflexivity|]. intros x Hx. apply H. right. exact Hx.
+Qed.
+
+(* walking the keys of an association list with distinct keys, in any order, and looking each one up
+   visits every entry once *)
+Lemma keyed_flat_map {B} (f : str -> list def -> list B) (dflt : str -> list B) (E : list group) K :
+  NoDup (map fst E) -> Permutation K (map fst E) ->
+  Permutation (flat_map (fun k => match lookup k E with Some l => f k l | None => dflt k end) K)
+              (flat_map (fun g => f (fst g) (snd g)) E).
+Proof.
+  intros Hnd Hp. rewrite (flat_map_perm _ _ _ Hp). clear K Hp.
+  induction E as [|[k l] t IH]; cbn [map fst flat_map]; [reflexivity|].
+  cbn [map fst] in Hnd. inversion Hnd as [|? ? Hnin Hnd']; subst.
+  cbn [lookup snd]. rewrite beq_refl. apply Permutation_app_head.
+  rewrite <- (IH Hnd'). erewrite flat_map_ext_in'; [reflexivity|].
+  intros k' Hk'. cbn [lookup]. destruct (beq_spec k k') as [->|_]; [contradiction|reflexivity].
+Qed.
+
+Lemma flat_map_flat_map' {A B C} (f : B -> list C) (g : A -> list B) l :
+  flat_map f (flat_map g l) = flat_map (fun a => flat_map f (g a)) l.
+Proof. induction l as [|a t IH]; cbn [flat_map]; [reflexivity|]. rewrite flat_map_app, IH. reflexivity. Qed.
+
+Lemma Forall2_map_eq {A B C} (R : A -> B -> Prop) (f : A -> C) (g : B -> C) l r :
+  Forall2 R l r -> (forall a b, R a b -> f a = g b) -> map f l = map g r.
+Proof. induction 1 as [|a b l r Hab Hlr IH]; intros Hf; cbn [map]; [reflexivity|]. rewrite (Hf _ _ Hab), IH by exact Hf. reflexivity. Qed.
+
+Lemma Forall2_flat_map_eq {A B C} (R : A -> B -> Prop) (f : A -> list C) (g : B -> list C) l r :
+  Forall2 R l r -> (forall a b, R a b -> f a = g b) -> flat_map f l = flat_map g r.
+Proof. induction 1 as [|a b l r Hab Hlr IH]; intros Hf; cbn [flat_map]; [reflexivity|]. rewrite (Hf _ _ Hab), IH by exact Hf. reflexivity. Qed.
+
+Lemma nodup_str_spec l : nodup_str l = true -> NoDup l.
+Proof.
+  induction l as [|a t IH]; cbn [nodup_str]; [constructor|].
+  intros H. apply andb_true_iff in H as [Ha Ht]. apply negb_true_iff in Ha. constructor; [|apply IH; exact Ht].
+  intros Hi. apply list_contains_spec in Hi. congruence.
+Qed.
+
+Section NoDupNames.
+Variable goify : str -> bool -> str.
+Variable sort_defs : list def -> list def.
+Variable sort_strs : list str -> list str.
+Hypothesis sort_defs_perm : forall l, Permutation (sort_defs l) l.
+Hypothesis sort_strs_perm : forall l, Permutation (sort_strs l) l.
+
+(* every identifier the generated package declares at top level: enum types and their constants,
+   interfaces and the structs behind them, stand-alone structs, Params structs *)
+Definition declared (out : output) : list str :=
+  flat_map (fun e => e_type e :: map (fun v => fst (fst v)) (e_vals e)) (o_enums out)
+  ++ flat_map (fun x => fst x :: map sd_name (snd x)) (o_ifaces out)
+  ++ map sd_name (o_types out)
+  ++ map (fun x => sd_name (fst x)) (o_methods out).
+
+(* the same, read off the schema *)
+Definition declared_by (o : list group) (ms : list def) : list str :=
+  flat_map (fun g => goify (fst g) true :: map (fun d => enum_value_name goify (d_name d) (fst g)) (snd g)) (enums_of o)
+  ++ flat_map (fun g => goify (fst g) true :: map (fun d => goify (member_name goify (fst g) d) true) (snd g)) (types_of o)
+  ++ map (fun d => goify (d_name d) true) (singles_of o)
+  ++ map (fun m => goify (d_name m ++ l_Params) true) ms.
+
+Lemma gen_struct_name o n d impl sd : gen_struct goify o n d impl = Ok sd -> sd_name sd = goify n true.
+Proof. intros H. apply (gen_struct_spec goify) in H. tauto. Qed.
+
+Theorem declared_perm o ms out : groups_ok o ->
+  emit goify sort_defs sort_strs o ms = Ok out -> Permutation (declared out) (declared_by o ms).
+Proof.
+  intros [Hnd Hk] He. unfold emit in He.
+  destruct (gen_types goify sort_defs o) as [ty| |] eqn:Ety; cbn [obind] in He; try discriminate.
+  destruct (gen_ifaces goify sort_defs sort_strs o) as [ifs| |] eqn:Eif; cbn [obind] in He; try discriminate.
+  destruct (gen_methods goify sort_defs o ms) as [me| |] eqn:Eme; cbn [obind] in He; try discriminate.
+  injection He as <-. unfold declared, declared_by. cbn [o_enums o_types o_ifaces o_methods].
+  apply omap_list_ok in Ety, Eif, Eme.
+  repeat apply Permutation_app.
+  - (* enums *)
+    unfold gen_enums. rewrite flat_map_flat_map'.
+    etransitivity.
+    + apply (flat_map_perm_pointwise _ (fun k => match lookup k (enums_of o) with
+                 | Some l => goify k true :: map (fun d => enum_value_name goify (d_name d) k) (sort_defs l)
+                 | None => [] end)).
+      intros k _. destruct (lookup k (enums_of o)) as [l|]; cbn [flat_map map app]; [|reflexivity].
+      rewrite app_nil_r. unfold gen_enum. cbn [e_type e_vals]. rewrite map_map. cbn [fst]. reflexivity.
+    + etransitivity; [apply (keyed_flat_map (fun k l => goify k true :: map (fun d => enum_value_name goify (d_name d) k) (sort_defs l)) (fun _ => []));
+                      [apply filter_keys_nodup; exact Hnd|apply sort_strs_perm]|].
+      apply flat_map_perm_pointwise. intros g _. constructor. apply Permutation_map. apply sort_defs_perm.
+  - (* interfaces *)
+    rewrite <- (Forall2_flat_map_eq _ (fun k => match lookup k (types_of o) with
+                 | Some l => goify k true :: map (fun d => goify (member_name goify k d) true) (sort_defs l)
+                 | None => [goify k true] end) _ _ _ Eif).
+    + etransitivity; [apply (keyed_flat_map (fun k l => goify k true :: map (fun d => goify (member_name goify k d) true) (sort_defs l)) (fun k => [goify k true]));
+                      [apply filter_keys_nodup; exact Hnd|apply sort_strs_perm]|].
+      apply flat_map_perm_pointwise. intros g _. constructor. apply Permutation_map. apply sort_defs_perm.
+    + intros k x Hx. destruct (lookup k (types_of o)) as [l|].
+      * unfold gen_iface in Hx. destruct (omap_list _ (sort_defs l)) as [ss| |] eqn:Ess; cbn [obind] in Hx; try discriminate.
+        injection Hx as <-. cbn [fst snd]. f_equal. apply omap_list_ok in Ess.
+        apply (Forall2_map_eq _ _ _ _ _ Ess). intros d sd Hd. symmetry. eapply gen_struct_name. exact Hd.
+      * injection Hx as <-. reflexivity.
+  - (* stand-alone structs *)
+    rewrite <- (Forall2_map_eq _ (fun d => goify (d_name d) true) _ _ _ Ety).
+    + apply Permutation_map. apply sort_defs_perm.
+    + intros d sd Hd. symmetry. eapply gen_struct_name. exact Hd.
+  - (* Params structs *)
+    rewrite <- (Forall2_map_eq _ (fun m => goify (d_name m ++ l_Params) true) _ _ _ Eme).
+    + apply Permutation_map. apply sort_defs_perm.
+    + intros m x Hx. unfold gen_method in Hx.
+      destruct (gen_struct goify o (d_name m ++ l_Params) m []) as [sd| |] eqn:Es; cbn [obind] in Hx; try discriminate.
+      destruct (type_id goify o (d_type m)); [|discriminate].
+      destruct (gen_args goify o m); cbn [obind] in Hx; try discriminate. injection Hx as <-. cbn [fst].
+      symmetry. eapply gen_struct_name. exact Es.
+Qed.
+
+End NoDupNames.
+
+Lemma flat_map_cons_split {A B} (a : A -> B) (b : A -> list B) l :
+  Permutation (flat_map (fun g => a g :: b g) l) (map a l ++ flat_map b l).
+Proof.
+  induction l as [|x t IH]; cbn [flat_map map app]; [reflexivity|].
+  constructor. rewrite IH. rewrite !app_assoc. apply Permutation_app_tail. apply Permutation_app_comm.
+Qed.
+
+Section NoDupNames2.
+Variable goify : str -> bool -> str.
+Variable sort_defs : list def -> list def.
+Variable sort_strs : list str -> list str.
+Hypothesis sort_defs_perm : forall l, Permutation (sort_defs l) l.
+Hypothesis sort_strs_perm : forall l, Permutation (sort_strs l) l.
+
+Lemma member_init_name_eq k d : member_init_name goify k d = goify (member_name goify k d) true.
+Proof. unfold member_init_name, member_name. destruct (beq _ _); reflexivity. Qed.
+
+Lemma declared_by_top objs ms o : Permutation o (groups objs) ->
+  Permutation (declared_by goify o ms) (top_names goify (mkschema objs ms)).
+Proof.
+  intros Hp. unfold declared_by, top_names. cbn [s_objects s_methods].
+  rewrite (flat_map_cons_split (fun g => goify (fst g) true)), (flat_map_cons_split (fun g => goify (fst g) true)).
+  rewrite <- !app_assoc.
+  assert (He : Permutation (enums_of o) (enums_of (groups objs))) by (apply filter_perm, Hp).
+  assert (Ht : Permutation (types_of o) (types_of (groups objs))) by (apply filter_perm, Hp).
+  assert (Hs : Permutation (singles_of o) (singles_of (groups objs))) by (apply flat_map_perm, Hp).
+  repeat apply Permutation_app.
+  - apply Permutation_map. exact He.
+  - apply flat_map_perm. exact He.
+  - apply Permutation_map. exact Ht.
+  - rewrite (flat_map_perm _ _ _ Ht). apply Permutation_refl'. apply flat_map_ext. intros g.
+    apply map_ext. intros d. symmetry. apply member_init_name_eq.
+  - apply Permutation_map. exact Hs.
+  - reflexivity.
+Qed.
+
+(* under the decidable name check of the subset, no identifier is declared twice *)
+Theorem declared_nodup objs ms o out :
+  Permutation o (groups objs) -> names_ok goify (mkschema objs ms) = true ->
+  emit goify sort_defs sort_strs o ms = Ok out -> NoDup (declared out).
+Proof.
+  intros Hp Hn He.
+  assert (Hok : groups_ok o) by (eapply groups_ok_perm; [apply Permutation_sym; exact Hp|apply groups_groups_ok]).
+  unfold names_ok in Hn. repeat (apply andb_true_iff in Hn as [Hn _]). apply nodup_str_spec in Hn.
+  eapply Permutation_NoDup; [|exact Hn]. symmetry.
+  rewrite (declared_perm goify sort_defs sort_strs sort_defs_perm sort_strs_perm o ms out Hok He).
+  apply declared_by_top. exact Hp.
+Qed.
+
+End NoDupNames2.
+
